@@ -134,6 +134,9 @@ func (r *c40Rig) ServeHTTP(w bfe_http.ResponseWriter, req *bfe_http.Request) {
 				f.Flush()
 			}
 			h.acks <- c40Ack{op: "write", n: n, err: err}
+		case "closebody":
+			err := req.Body.Close()
+			h.acks <- c40Ack{op: "closebody", err: err}
 		case "finish":
 			return
 		}
@@ -174,6 +177,8 @@ type c40Stream struct {
 	gotRst     bool
 	mayRst     bool // RST from the server is legitimate (CANCEL after handler return, duplicate SYN)
 	finishing  bool
+	bodyClosed bool   // the handler closed the request body while the stream is open
+	overLim    string // which window the pending overdraw exceeded ("stream"/"session")
 	refused    bool  // SYN_STREAM was a bad request (3.2.1): the id is used up, no handler is expected
 	tainted    bool  // outcome of an earlier step on this stream is not fixed by the property: no further verdicts on it
 	declCL     int64 // declared Content-Length, -1 if none
@@ -545,8 +550,23 @@ func (c *c40Case) rstsSettled() bool {
 
 // barrier after every step.
 func (c *c40Case) barrier() {
-	c.settleHard(func() bool { return c.rstsSettled() && c.creditsSettled() }, "reaction-missing",
-		"after %d PING round trips the server still owes: %s", c40HardRounds, c.owed())
+	for i := 0; ; i++ {
+		c.round()
+		if c.stop() || (c.rstsSettled() && c.creditsSettled()) {
+			break
+		}
+		if i+1 >= c40HardRounds {
+			key := "reaction-missing"
+			for _, id := range c.order {
+				if st := c.streams[id]; st.wantRst && st.overLim != "" {
+					// DATA beyond the advertised window was not refused
+					key = st.overLim + "-window-overdraw-accepted"
+				}
+			}
+			c.fail(key, "after %d PING round trips the server still owes: %s", c40HardRounds, c.owed())
+			break
+		}
+	}
 	if c.stop() {
 		return
 	}
@@ -849,6 +869,21 @@ func (c *c40Case) stepData(s c40Step) {
 				return // verdict would depend on the uncertain part of the session window
 			}
 		}
+		if st.bodyClosed && !over {
+			// A legal DATA frame of a client that cannot know the handler closed the body: whatever the server does
+			// with the stream (bfe resets it), the octets were sent within the advertised windows and use them up.
+			c.log("DATA-body-closed(%d n=%d fin=%v win=%d/%s)", st.id, n, fin, w, lim)
+			c.flags["data-after-body-close"] = true
+			st.recvWin -= n
+			c.sessRecv -= n
+			st.tainted, st.mayRst = true, true
+			df := &bfe_spdy.DataFrame{StreamId: bfe_spdy.StreamId(st.id), Data: patBytes(st.id, int(st.sent), int(n), 0)}
+			if fin {
+				df.Flags = bfe_spdy.DataFlagFin
+			}
+			c.write(df)
+			return
+		}
 		if st.declCL >= 0 && (st.sent+n > st.declCL || (fin && st.sent+n != st.declCL)) {
 			// body length contradicts the declared Content-Length (3.2.1: the request is bad). What exactly the
 			// server does is not fixed by the property: tolerate a reset, give no further verdicts on this stream.
@@ -874,6 +909,7 @@ func (c *c40Case) stepData(s c40Step) {
 		}
 		if over {
 			c.flags["overdraw-"+lim] = true
+			st.overLim = lim
 			st.wantRst = true // 2.6.8: FLOW_CONTROL_ERROR; the bytes must never reach the handler
 		} else {
 			if n > 0 && n == w {
@@ -928,7 +964,7 @@ func (c *c40Case) stepData(s c40Step) {
 }
 
 func (c *c40Case) stepRead(s c40Step) {
-	st := c.pick(s.A, func(x *c40Stream) bool { return !x.closed && !x.busy && x.h != nil && x.buffered > 0 && !x.finishing && !x.tainted })
+	st := c.pick(s.A, func(x *c40Stream) bool { return !x.closed && !x.busy && x.h != nil && x.buffered > 0 && !x.finishing && !x.tainted && !x.bodyClosed })
 	if st == nil {
 		return
 	}
@@ -1198,7 +1234,7 @@ func (c *c40Case) stepRace(s c40Step) {
 		}
 	}
 	st := c.pick(0, func(x *c40Stream) bool {
-		return !x.closed && !x.busy && x.h != nil && x.buffered > 0 && !x.finishing && !x.tainted
+		return !x.closed && !x.busy && x.h != nil && x.buffered > 0 && !x.finishing && !x.tainted && !x.bodyClosed
 	})
 	if st == nil || open != 1 {
 		return
@@ -1293,6 +1329,24 @@ wait:
 	}
 }
 
+
+// stepCloseBody: the handler closes the request body although the client may still be sending.
+func (c *c40Case) stepCloseBody(s c40Step) {
+	st := c.pick(s.A, func(x *c40Stream) bool {
+		return !x.closed && !x.busy && x.h != nil && !x.finishing && !x.tainted && !x.clientFin && !x.bodyClosed && x.declCL < 0
+	})
+	if st == nil {
+		return
+	}
+	c.log("HCLOSEBODY(%d buffered=%d)", st.id, st.buffered)
+	c.flags["handler-closed-body"] = true
+	st.h.cmds <- c40Cmd{op: "closebody"}
+	if _, ok := c.waitAck(st.h, "closebody"); !ok {
+		return
+	}
+	st.bodyClosed = true
+}
+
 // ---------- one case ----------
 
 var (
@@ -1351,6 +1405,8 @@ func c40Run(tb ev.TB, rec *ev.Rec, script []c40Step) {
 			c.stepMisc(s)
 		case "race":
 			c.stepRace(s)
+		case "closebody":
+			c.stepCloseBody(s)
 		case "syn":
 			c.stepSyn(s)
 		case "data":
@@ -1429,7 +1485,7 @@ func c40Run(tb ev.TB, rec *ev.Rec, script []c40Step) {
 
 	nt := c.flags["opened"] && (c.flags["overdraw-stream"] || c.flags["overdraw-session"] || c.flags["data-half-closed"] || c.flags["data-closed"] ||
 		c.flags["data-never-opened"] || c.flags["invalid-syn-even"] || c.flags["invalid-syn-lower"] || c.flags["invalid-syn-duplicate"] ||
-		c.flags["write-blocked-by-window"] || c.flags["settings-change-live"] || c.flags["refused-syn"] || c.flags["consumed-after-stream-close"])
+		c.flags["write-blocked-by-window"] || c.flags["settings-change-live"] || c.flags["refused-syn"] || c.flags["consumed-after-stream-close"] || c.flags["data-after-body-close"])
 	var classes []string
 	for k := range c.flags {
 		classes = append(classes, k)
@@ -1440,6 +1496,7 @@ func c40Run(tb ev.TB, rec *ev.Rec, script []c40Step) {
 	if c.incon != "" {
 		classes = append(classes, "inconclusive")
 		rec.Excluded("inconclusive: " + c.incon)
+		fmt.Printf("C40-INCONCLUSIVE %s: %v\n", c.incon, c.steps)
 	}
 	if c.goAway {
 		classes = append(classes, "ended-by-goaway")
@@ -1450,7 +1507,7 @@ func c40Run(tb ev.TB, rec *ev.Rec, script []c40Step) {
 
 func genC40Script(rt *rapid.T, maxSteps int) []c40Step {
 	n := rapid.IntRange(4, maxSteps).Draw(rt, "nSteps")
-	ops := []string{"syn", "syn", "syn", "data", "data", "data", "data", "data", "read", "read", "read", "read", "write", "write", "write", "finish", "wu", "wu", "settings", "rst", "ping", "misc", "misc", "race", "race"}
+	ops := []string{"syn", "syn", "syn", "data", "data", "data", "data", "data", "read", "read", "read", "read", "write", "write", "write", "finish", "wu", "wu", "settings", "rst", "ping", "misc", "misc", "race", "race", "closebody"}
 	script := []c40Step{{Op: "syn", A: 0, B: rapid.IntRange(0, 7).Draw(rt, "firstFin"), C: rapid.IntRange(0, 2).Draw(rt, "firstGap")}}
 	for i := 1; i < n; i++ {
 		s := c40Step{Op: rapid.SampledFrom(ops).Draw(rt, "op")}
@@ -1509,6 +1566,9 @@ func TestC40(t *testing.T) {
 		[]c40Step{{Op: "syn", B: 1}, {Op: "syn", A: 6, D: 0}, {Op: "syn", A: 7}, {Op: "syn", B: 1}},
 		[]c40Step{{Op: "syn", B: 1}, {Op: "syn", A: 6, D: 3}, {Op: "rst", A: 1, B: 0}, {Op: "ping"}, {Op: "syn", B: 1}},
 		[]c40Step{{Op: "syn", A: 6, D: 2}, {Op: "data", A: 7, D: 3}, {Op: "syn", A: 6, D: 4}, {Op: "syn", A: 7}},
+		// DATA sent while the handler has closed the body still uses up the session window: the rest of it, and not more, is left
+		[]c40Step{{Op: "syn", B: 1}, {Op: "syn", B: 1}, {Op: "closebody", A: 0}, {Op: "data", A: 0, B: 4, C: 1, D: 30000}, {Op: "data", A: 0, B: 6, C: 1}, {Op: "data", A: 0, B: 7, C: 1}},
+		[]c40Step{{Op: "syn", B: 1}, {Op: "syn", B: 1}, {Op: "data", A: 0, B: 1, C: 1, D: 99}, {Op: "closebody", A: 0}, {Op: "data", A: 0, B: 9, C: 1}, {Op: "data", A: 0, B: 9, C: 1, D: 1}, {Op: "data", A: 0, B: 7, C: 1}},
 		// bytes consumed by the handler after the stream was closed still replenish the session window
 		[]c40Step{{Op: "syn", B: 1}, {Op: "data", A: 0, B: 1, C: 1, D: 199}, {Op: "read", A: 0, B: 0, D: 99}, {Op: "race", A: 0, B: 1}, {Op: "syn", B: 1}},
 		[]c40Step{{Op: "syn", B: 1}, {Op: "data", A: 0, B: 1, C: 1, D: 150}, {Op: "race", A: 1, B: 1}},
